@@ -65,7 +65,7 @@ SHAPES = {
 
 
 def cases(tier, seed):
-    reps = 2 if tier == "quick" else 1200
+    reps = 4 if tier == "quick" else 1200
     out = []
     for fn, shp in SHAPES.items():
         for si in range(len(shp)):
@@ -169,8 +169,21 @@ def run_case(case, ctx):
             if fn in ("elementwise_division", "scalar_divide", "inverse") and vc == "zero":
                 ops[-1] = values(rng, spec[-1], "pm1")  # x/0 is not an arithmetic statement
             args = [gen.enc(o) for o in ops]
+            mform = "contiguous"
+            if case["rep"] % 2 == 1:
+                # the same operands as strided / permuted-layout / offset views (what slicing and transposing hand over)
+                pairs_ = [gen.memory_form_nd(a, rng) for a in args]
+                args, mform = [p_[0] for p_ in pairs_], "+".join(p_[1] for p_ in pairs_)
+                ctx.count("non_contiguous_operand_calls")
+            elif case["rep"] % 4 == 2 and len(args) == 2 and ops[0].shape == ops[1].shape:
+                # the very same tensor object as both operands
+                args = [args[0], args[0]]
+                ops = [ops[0], ops[0]]
+                mform = "same-object"
+                ctx.count("same_object_operand_calls")
+            ctx.seen("operand_memory_forms", mform)
             before = [a.clone() for a in args]
-            r = ctx.lib("cplx." + fn, f, *args)
+            r = ctx.lib("cplx." + fn, f, *args, tags={"fn": fn, "memory_form": mform})
             for a, b in zip(args, before):
                 if not torch.equal(a, b) and not (torch.isnan(a) & torch.isnan(b)).any():
                     ctx.violation("operand-mutated", f"cplx.{fn} modified an operand", tags={"fn": fn})
@@ -216,6 +229,60 @@ def run_case(case, ctx):
                            tags={"fn": "scalar_mult"})
             if not torch.equal(buf, keep):
                 ctx.violation("aliased-out-written", f"scalar_mult(out={which}) was rejected after overwriting the operand")
+        # an output buffer that is another tensor OBJECT over an operand's memory (what slicing, .data, .detach() and
+        # .view() hand over) aliases that operand just as much: an error, never a wrong product
+        views = [("x[:]", lambda t_: t_[:]), ("x.data", lambda t_: t_.data), ("x.detach()", lambda t_: t_.detach()),
+                 ("x.view_as(x)", lambda t_: t_.view_as(t_)), ("x.reshape(shape)", lambda t_: t_.reshape(t_.shape))]
+        vname, mk = views[int(rng.integers(0, len(views)))]
+        for which in ("x", "y"):
+            a2, b2 = a.clone(), b.clone()
+            buf = mk(a2 if which == "x" else b2)
+            err = None
+            try:
+                r2 = cplx.scalar_mult(a2, b2, out=buf)
+            except Exception as e:  # noqa: BLE001
+                err = e
+            ctx.count("aliasing_view_out_buffers_tried")
+            if err is not None:
+                ctx.count("rejections_observed")
+                if not (torch.equal(a2, a) and torch.equal(b2, b)):
+                    ctx.violation("aliased-out-written", f"scalar_mult(out=<{vname} of {which}>) was rejected after overwriting the operand",
+                                  tags={"fn": "scalar_mult", "out": "view-of-operand"})
+            elif np.abs(gen.dec(r2) - want).max() > 1e-13 * (1 + np.abs(want).max()):
+                ctx.violation("aliasing-out-wrong-value", f"scalar_mult(x, y, out=<{vname.replace('x', which)}>, a view over operand {which}'s memory) raised "
+                              f"nothing and returned {gen.dec(r2)!r} instead of x*y = {want!r}",
+                              tags={"fn": "scalar_mult", "out": "view-of-operand", "call": "scalar_mult", "alias": "view"},
+                              witness={"x": a.tolist(), "y": b.tolist(), "out": vname, "operand": which})
+        # partial overlap with a different start address: out's real half lies over x's imaginary half
+        n_ = int(np.prod(shp)) if shp else 1
+        flat = torch.zeros(3 * n_, dtype=torch.double)
+        xs = flat[:2 * n_].view((2,) + shp)
+        xs.copy_(a)
+        err = None
+        try:
+            r4 = cplx.scalar_mult(xs, b, out=flat[n_:].view((2,) + shp))
+        except Exception as e:  # noqa: BLE001
+            err = e
+        ctx.count("aliasing_view_out_buffers_tried")
+        if err is not None:
+            ctx.count("rejections_observed")
+            if not torch.equal(xs, a):
+                ctx.violation("aliased-out-written", "scalar_mult(out=<buffer partially overlapping x>) was rejected after overwriting the operand",
+                              tags={"fn": "scalar_mult", "out": "partial-overlap"})
+        elif np.abs(gen.dec(r4) - want).max() > 1e-13 * (1 + np.abs(want).max()):
+            ctx.violation("aliasing-out-wrong-value", f"scalar_mult(x, y, out=<buffer whose real half lies over x's imaginary half>) raised nothing "
+                          f"and returned {gen.dec(r4)!r} instead of x*y = {want!r}",
+                          tags={"fn": "scalar_mult", "out": "partial-overlap", "call": "scalar_mult", "alias": "partial"},
+                          witness={"x": a.tolist(), "y": b.tolist()})
+        # a buffer in the same allocation that does not overlap either operand is an ordinary buffer
+        big = torch.full((3, 2) + shp, 7.0, dtype=torch.double)
+        big[0], big[2] = a, b
+        try:
+            r3 = cplx.scalar_mult(big[0], big[2], out=big[1])
+            if np.abs(gen.dec(r3) - want).max() > 1e-13 * (1 + np.abs(want).max()) or not (torch.equal(big[0], a) and torch.equal(big[2], b)):
+                ctx.violation("out-not-written", "scalar_mult with operands and a disjoint out buffer taken from one allocation gave a wrong product")
+        except RuntimeError:
+            ctx.count("disjoint_same_allocation_out_refused")  # stricter than needed, but not a wrong value
         drain(ctx, {"fn": "scalar_mult"})
         ctx.mark_nontrivial(gen.model_digest("out", {"a": a.numpy(), "b": b.numpy()}, None))
     elif t == "errors":
